@@ -68,7 +68,7 @@ PROPERTIES = {
     'C06': {'obligations': ['O6.1', 'O5.1']},
     'C09': {'obligations': ['O9.1']},
     'C12': {'obligations': ['O12.1', 'O12.3', 'O12.4', 'O12.2']},
-    'C13': {'obligations': ['O1.6', 'O13.1', 'O13.2', 'O1.1']},
+    'C13': {'obligations': ['O1.6', 'O13.1', 'O1.1']},
     'C14': {'obligations': ['O14.1']},
     'C02': {'obligations': ['O12.3']},
     'C15': {'obligations': ['O15.5', 'O15.1', 'O15.2', 'O15.3']},
